@@ -367,7 +367,7 @@ func (c *Ctx) Finish() {
 		"seed":        c.Seed,
 		"level":       c.Level,
 		"coverage":    cov,
-		"assumptions": c.assumptions,
+		"assumptions": append([]string{}, c.assumptions...),
 		"wall_s":      time.Since(c.start).Seconds(),
 		"violations":  c.violations,
 	}
